@@ -169,8 +169,8 @@ class Inliner:
             it = self.items.get(k, {})
             if it.get("exported") or it.get("no_mangle") or it.get("reachable"):
                 continue
-            if reaches(k, k):
-                continue
+            if k in cg.get(k, ()):        # directly self-recursive; a helper on a longer cycle (the evaluator's) is
+                continue                  # inlined one level deep, which takes it off the cycle
             out.append(k)
         return sorted(out)
 
@@ -262,6 +262,21 @@ class Inliner:
                     # every block of the helper copy that builds the return value starts a path of its own
                     starts = [i for i in range(boff, cont) if any(st["k"] == "Assign" and st["place"]["local"] == loff and not st["place"]["proj"]
                                                                    and st["rv"]["k"] == "Aggregate" for st in b["blocks"][i]["stmts"])]
+                    # … and every `?` error exit of the helper (`ret = from_residual(..)`): known to be Err / None
+                    for i in range(boff, cont):
+                        tt = b["blocks"][i]["term"]
+                        if tt["k"] == "Call" and tt.get("dest") and tt["dest"]["local"] == loff and not tt["dest"]["proj"] and (callee_of(tt) or {}).get("path", "").endswith("::from_residual") and tt.get("target") is not None:
+                            # give the path a block of its own to start from
+                            nbk = {"stmts": [], "term": {"k": "Goto", "target": tt["target"]}, "tspan": b["blocks"][i].get("tspan"), "cleanup": False, "inlined_from": ck,
+                                   "residual_of": "Err" if (callee_of(tt) or {}).get("path", "").startswith("<std::result::Result<") else "None"}
+                            b["locals"].append(copy.deepcopy(b["locals"][loff]))
+                            fl = len(b["locals"]) - 1
+                            tt["dest"] = {"local": fl, "proj": []}
+                            nbk["stmts"].append({"k": "Assign", "place": {"local": loff, "proj": []}, "pty": b["locals"][loff]["ty"],
+                                                 "rv": {"k": "Use", "op": {"k": "Move", "place": {"local": fl, "proj": []}}}, "span": b["blocks"][i].get("tspan") or b["span"]})
+                            b["blocks"].append(nbk)
+                            tt["target"] = len(b["blocks"]) - 1
+                            starts.append(len(b["blocks"]) - 1)
                     if len(starts) > 1:
                         for rs in starts:
                             self._thread(b, rs, ret_local=loff)
@@ -331,6 +346,8 @@ class Inliner:
 
         # dry run: walk the path, remember which switches the known constructors decide
         step_stmts(blocks[start]["stmts"])
+        if blocks[start].get("residual_of") and ret_local is not None:
+            know[ret_local] = ("adt", blocks[start]["residual_of"], [None], 1 if blocks[start]["residual_of"] == "Err" else 0)
         nxt = blocks[start]["term"].get("target") if blocks[start]["term"]["k"] == "Goto" else None
         path = []          # (original block, decided target or None)
         visited = set()
@@ -442,7 +459,7 @@ class Inliner:
 
         # the start block: from the statement that builds the return value on
         sb = blocks[start]
-        first = next(i for i, st in enumerate(sb["stmts"]) if st["k"] == "Assign" and not st["place"]["proj"] and st["rv"]["k"] == "Aggregate" and st["place"]["local"] == ret_local) if ret_local is not None else None
+        first = next((i for i, st in enumerate(sb["stmts"]) if st["k"] == "Assign" and not st["place"]["proj"] and (st["rv"]["k"] == "Aggregate" or sb.get("residual_of")) and st["place"]["local"] == ret_local), None) if ret_local is not None else None
         if first is not None:
             rename_block(sb, first)
         owner = start
